@@ -26,6 +26,12 @@ KN = lambda k: f"_DICT_KEYNAMES['{k}']"
 
 def _dict_items(e):
     """dict Expr -> {key Expr text: value Expr}"""
+    if pq.call_named(e, "setitem") and len(e[2]) == 3:          # literal followed by `d[key] = value`
+        base = _dict_items(e[2][0])
+        if base is None:
+            return None
+        base[show(e[2][1])] = e[2][2]
+        return base
     if not pq.call_named(e, "dict"):
         return None
     keys, vals = e[2][0][1], e[2][1][1]
@@ -152,8 +158,46 @@ def run(rep):
     mr = [p_ for p_ in pq.PEval().run(tm) if p_.how == "return"]
     wm = _dict_items(mr[0].value) if len(mr) == 1 else None
     kc, ko = show(pq.parse(KN("context_name"))), show(pq.parse(KN("manager_options_name")))
-    okm = wm is not None and set(wm) == {"'name'", kc, ko, "'tasks'"} and pq.same(wm["'name'"], "self.name") and pq.same(wm[kc], "self.context") and pq.same(wm[ko], "self.options") and \
-        pq.same(wm["'tasks'"], "[self.get_task(taskid).to_dict() for taskid in range(self.ntasks)]")
+    okm = wm is not None and set(wm) == {"'name'", kc, ko, "'tasks'"} and pq.same(wm["'name'"], "self.name") and pq.same(wm[kc], "self.context") and pq.same(wm[ko], "self.options")
+    # tasks entry: element i = dictionary of the task object (i, context, tasks[i]), for i over all tasks in order
+    gt0 = mod.func("OptionManager.get_task")
+    gt0r = [p_ for p_ in pq.PEval().run(gt0, {"taskid": ('sym', '$i')}) if p_.how == "return"]
+    I = ('sym', '$i')
+    TS = pq.parse("self.tasks")
+
+    def _sub(e, f):
+        if not isinstance(e, tuple):
+            return e
+        r = f(e)
+        if r is not None:
+            return r
+        return tuple(_sub(x, f) for x in e)
+
+    def task_element(v):
+        if not (pq.call_named(v, "map") and len(v[2]) == 2):
+            return None
+        body, it = v[2]
+        E = ('call', 'elem', (it,))
+        if pq.call_named(it, "py.range") and len(it[2]) == 1 and (pq.same(it[2][0], "self.ntasks") or pq.same(it[2][0], ('call', 'shape', (TS, num(0))))):
+            body = _sub(body, lambda x: I if x == E else None)
+        elif pq.call_named(it, "py.enumerate") and len(it[2]) == 1 and len(it) == 3 and pq.same(it[2][0], TS):
+            body = _sub(body, lambda x: I if x == ('call', 'getitem', (E, num(0))) else (('call', 'getitem', (TS, I)) if x == ('call', 'getitem', (E, num(1))) else None))
+        else:
+            return None
+        if pq.mentions(body, lambda x: x == E):
+            return None
+        if len(gt0r) == 1:
+            body = _sub(body, lambda x: _sub(gt0r[0].value, lambda y: x[2][1] if y == I else None)
+                        if pq.call_named(x, ".get_task") and len(x[2]) == 2 and x[2][0] == ('sym', 'self') and len(x) == 3 else None)
+        return body
+    te = task_element(wm["'tasks'"]) if okm else None
+    if okm and te is None:
+        rep.undecided("R19.c", rel, "OptionManager.to_dict", "tasks entry lists the dictionary of every task in order", "form not recognised: " + show(wm["'tasks'"])[:160], line=tm.lineno)
+    elif okm:
+        okm = pq.call_named(te, ".to_dict") and len(te[2]) == 1 and pq.call_named(te[2][0], "f:OptionTask") and len(te[2][0][2]) == 3 and len(te[2][0]) == 3 and \
+            pq.same(te[2][0][2][1], "self.context") and pq.same(te[2][0][2][2], ('call', 'getitem', (TS, I)))
+        if okm and not pq.same(te[2][0][2][0], I):
+            rep.undecided("R19.c", rel, "OptionManager.to_dict", "task dictionaries carry their own index as taskid", show(te[2][0][2][0])[:100], line=tm.lineno)
     rep.check(okm, "R19.c", rel, "OptionManager.to_dict", "name, context, options, tasks stored under their keys", str(sorted(wm or {}))[:200], line=tm.lineno)
     fm = mod.func("OptionManager.from_dict")
     pe = pq.PEval()
